@@ -594,7 +594,11 @@ def obligations(tier, seed):
            SC.WeightedAcceptanceChecker.checkRequirementsInner]
     obs = []
     K = 2 if tier == "quick" else 3
-    for name, prog in corpus().items():
+    import os
+
+    programs = dict(corpus())
+    programs.update(generated(seed, int(os.environ.get("C01_GENERATED", "4" if tier == "quick" else "40"))))
+    for name, prog in programs.items():
         modes = [True] if tier == "quick" and not name.startswith("objects") else [True, False]
         for mode2D in modes:
             has_req = any(st[0] == "require" for st in prog)
@@ -612,3 +616,78 @@ def obligations(tier, seed):
             ob.alternatives = alts[1:]
             obs.append(ob)
     return obs
+
+
+# ------------------------------------------------------------------ generated IR programs
+def gen_program(rnd):
+    """A random program of the IR: 2-4 random variables (uniform / weighted / discrete range, possibly depending on earlier
+    ones, possibly resampled), parameters over expressions, 0-2 requirements (hard or soft)."""
+    prog, names, primitive = [], [], []
+
+    def const(lo=0, hi=5):
+        return C(rnd.randint(lo, hi))
+
+    def operand():
+        return V(rnd.choice(names)) if names and rnd.random() < 0.7 else const()
+
+    def expr(depth=1):
+        k = rnd.random()
+        if depth == 0 or k < 0.35:
+            return operand()
+        if k < 0.8:
+            return (rnd.choice(["+", "-", "*"]), expr(depth - 1), expr(depth - 1))
+        if k < 0.9:
+            return ("neg", expr(depth - 1))
+        return ("call", expr(depth - 1), operand())
+
+    nvars = rnd.randint(2, 4)
+    for i in range(nvars):
+        nm = "xyzw"[i]
+        k = rnd.random()
+        if k < 0.35:
+            e = ("uni",) + tuple(const(0, 9) for _ in range(rnd.randint(2, 3)))
+        elif k < 0.55:
+            e = ("disc", [(C(v), rnd.randint(1, 4)) for v in rnd.sample(range(10), rnd.randint(2, 3))])  # distinct keys
+        elif k < 0.85 or not primitive:
+            lo = rnd.randint(0, 2)
+            hi_e = ("+", V(rnd.choice(names)), C(lo + 1)) if names and rnd.random() < 0.4 else C(lo + rnd.randint(1, 3))
+            e = ("rng", C(lo) if hi_e[0] == "c" else C(0), hi_e)
+        else:
+            e = ("re", rnd.choice(primitive))
+        if e[0] != "re":
+            primitive.append(nm)
+        prog.append(("let", nm, e))
+        prog.append(("param", "obs_" + nm, V(nm)))  # observed at once: variables are then drawn in definition order
+        names.append(nm)
+    for j in range(rnd.randint(0, 2)):
+        cmpop = rnd.choice(["<", "<=", "!=", "==", ">", ">="])
+        prob = rnd.choice([None, None, 0.25, 0.5, 0.75])
+        prog.append(("require", (cmpop, expr(1), expr(1)), prob))
+    for j in range(rnd.randint(1, 3)):
+        prog.append(("param", f"p{j}", expr(2)))
+    return prog
+
+
+def _names_in(st):
+    out = set()
+
+    def walk(e):
+        if isinstance(e, tuple):
+            if e and e[0] == "v":
+                out.add(e[1])
+            elif e and e[0] == "re":
+                pass  # resampling draws a fresh copy: the original itself need not be drawn
+            else:
+                for x in e[1:]:
+                    walk(x)
+        elif isinstance(e, list):
+            for x in e:
+                walk(x)
+
+    walk(st[2] if st[0] in ("let", "param") else st[1] if st[0] == "require" else ())
+    return out
+
+
+def generated(seed, n):
+    rnd = random.Random(100 + seed)
+    return {f"generated[{seed}.{i}]": gen_program(rnd) for i in range(n)}
